@@ -12,7 +12,7 @@
 (*   [k |-> "picks", seq: seq of stubs, k: Nat, explicit: BOOLEAN]                                                *)
 EXTENDS Endpoints, Json
 
-CONSTANTS TraceFile, Judge03, Judge14, Judge15
+CONSTANTS TraceFile, Judge03, Judge14, Judge15, JudgeLive
 Traces == ndJsonDeserialize(TraceFile)
 VARIABLES tr, l, srv, known, marked, removedAt
 tvars == <<tr, l, srv, known, marked, removedAt, servers, healthy, cursor, inflight, probed, hist, matched>>
@@ -29,6 +29,13 @@ OK ==
   CASE Ev.k = "fwd"    -> Judge03 => (Ev.stub \in Allowed(Ev.subset) /\ known[Ev.stub] # "unready")         \* only listed, enabled, subset, healthy endpoints get traffic
     [] Ev.k = "status" -> Judge03 => (Ev.code = 503 => ~\E s \in Allowed(Ev.subset) : known[s] = "ready")     \* 503 only when no such endpoint exists
     [] Ev.k = "probe"  -> (Judge03 \/ Judge15) => ~(marked /\ srv[Ev.stub] \in {"off", "gone"})             \* no probe of a disabled / removed endpoint once the change has settled
+    \* [k |-> "pokelive", stub, probed, ready, health]: an endpoint the latest object lists as enabled was asked for a probe: it has a live
+    \* health-check loop (it probes), and the gateway's view of it afterwards is what its upstream answers (what a fresh gateway would find)
+    [] Ev.k = "pokelive" -> JudgeLive => (srv[Ev.stub] = "on" => (Ev.probed /\ Ev.ready = (Ev.health = "ok")))
+    \* [k |-> "ready", timeout |-> TRUE]: 3 s, another probe request and a full health-check interval after a change the gateway's view of the
+    \* enabled endpoints still was not what their upstreams answer
+    [] Ev.k = "ready"  -> (JudgeLive \/ Judge03) => ~Ev.timeout
+    [] Ev.k = "triggered" -> (JudgeLive \/ Judge03) => (srv[Ev.stub] = "on" => Ev.probed)       \* an enabled endpoint asked for a probe probes
     [] Ev.k = "hung"   -> Judge15 => FALSE                                                                      \* an in-flight request to a removed endpoint / deleted cluster must be cut promptly
     [] Ev.k = "cut"    -> Judge15 => ~Ev.other                                                                  \* requests to OTHER endpoints / clusters are never cut by a removal
     [] Ev.k = "ctl"    -> Judge15 => Ev.ok
@@ -41,7 +48,9 @@ TNext == /\ l <= Len(T.events) /\ OK /\ l' = l + 1 /\ tr' = tr
          /\ known' = CASE Ev.k = "applied" -> [s \in Stubs |-> IF srv[s] = "gone" \/ Ev.servers[s + 1] = "gone" THEN (IF Ev.servers[s + 1] = "gone" THEN "unready" ELSE "unknown") ELSE known[s]]
                        [] Ev.k = "deleted" -> [s \in Stubs |-> "unready"]
                        [] Ev.k = "health" -> [known EXCEPT ![Ev.stub] = "unknown"]
-                       [] Ev.k = "ready" -> [s \in Stubs |-> IF srv[s] = "gone" THEN "unready" ELSE IF s \in Rs(Ev.ready) THEN "ready" ELSE "unready"]
+                       [] Ev.k = "ready" -> [s \in Stubs |-> IF Ev.only # <<>> /\ s \notin Rs(Ev.only) THEN known[s]
+                                                              ELSE IF srv[s] = "gone" THEN "unready" ELSE IF s \in Rs(Ev.ready) THEN "ready" ELSE "unready"]
+                       [] Ev.k = "pokelive" -> [known EXCEPT ![Ev.stub] = IF srv[Ev.stub] # "on" THEN @ ELSE IF Ev.health = "ok" THEN "ready" ELSE "unready"]
                        [] OTHER -> known
          /\ marked' = IF Ev.k \in {"applied", "deleted", "unmark"} THEN FALSE ELSE IF Ev.k = "mark" THEN TRUE ELSE marked
          /\ UNCHANGED <<removedAt, servers, healthy, cursor, inflight, probed, hist, matched>>
